@@ -81,7 +81,7 @@ def _interp(body: List[ast.stmt], st: Dict[str, Form], is_nl: bool, var: str, ta
             if not (isinstance(a, ast.Tuple) and len(a.elts) == 2):
                 raise AnalysisError("C04: positions.append argument is not a pair")
             appended.append((_form(a.elts[0], st), _form(a.elts[1], st)))
-        elif isinstance(s, (ast.Pass,)) or (isinstance(s, ast.Expr) and isinstance(s.value, ast.Constant)):
+        elif isinstance(s, (ast.Pass, ast.Assert)) or (isinstance(s, ast.Expr) and isinstance(s.value, ast.Constant)):
             continue
         else:
             raise AnalysisError(f"C04: cannot interpret statement `{short(s)}` in LinenoColumner.__init__")
